@@ -122,6 +122,16 @@ class TiledStridedLayout:
 
     def largest_common_contiguous_block(self, other: TiledStridedLayout, starting_stride: int = 1) -> list[Stride]:
         """
+        The Strides of the largest common contiguous block (see
+        largest_common_contiguous_block_keys), or a single-element block if there is none.
+        """
+        keys = self.largest_common_contiguous_block_keys(other, starting_stride)
+        return [self.get_stride(*key) for key in keys] or [Stride(starting_stride, 1)]
+
+    def largest_common_contiguous_block_keys(
+        self, other: TiledStridedLayout, starting_stride: int = 1
+    ) -> list[tuple[int, int]]:
+        """
         Get the largest common contiguous block between two Tiled Strided Layouts.
         Stops searching when it hits a dynamic Stride, so it finds the largest static
         block.
@@ -133,16 +143,12 @@ class TiledStridedLayout:
             of the element type in bytes
 
         Returns:
-            list[Stride]: The list of Strides representing the largest common
-            contiguous block.
+            list[tuple[int, int]]: The (dim, depth) positions of the Strides making up
+            the largest common contiguous block, innermost first.
 
         """
         self_strides = [x for x in self]
-        result: list[Stride] = []
-
-        # provide default result of single element common
-        # contiguous block if none larger is found
-        default_result: list[Stride] = [Stride(starting_stride, 1)]
+        result: list[tuple[int, int]] = []
 
         # find largest contiguous block
         current_stride = starting_stride
@@ -162,7 +168,7 @@ class TiledStridedLayout:
 
             # check if contiguous block is found
             if next_stride is None:
-                return result or default_result
+                return result
             else:
                 dim, depth, stride_self = next_stride
                 self_strides.remove(next_stride)
@@ -170,11 +176,11 @@ class TiledStridedLayout:
             # check if contiguous block is common with other layout
             stride_other = other.get_stride(dim, depth)
             if stride_self == stride_other:
-                result.append(stride_self)
+                result.append((dim, depth))
                 if stride_self.step is None or stride_self.bound is None:
                     current_stride = None
                 else:
                     current_stride = stride_self.step * stride_self.bound
 
             else:
-                return result or default_result
+                return result
